@@ -24,11 +24,57 @@ theorem sumLen_drop_le (q : List Bytes) (k : Nat) : sumLen (q.drop k) ≤ sumLen
     | zero => simp
     | succ k => simp only [List.drop_succ_cons, sumLen]; have := ih k; omega
 
+/-- what a queue of buffered incoming datagrams is charged against the receive buffer (`recv_cost` each) -/
+def sumCost : List Bytes → Nat
+  | [] => 0
+  | d :: q => recvCost d + sumCost q
+
+theorem recvCost_eq (d : Bytes) : recvCost d = if d.length = 0 then 1 else d.length := by
+  simp only [recvCost, Gen.dgRecvCost, Nat.max_def]
+  split <;> split <;> omega
+
+theorem recvCost_pos (d : Bytes) : 1 ≤ recvCost d := by rw [recvCost_eq]; split <;> omega
+
+theorem len_le_recvCost (d : Bytes) : d.length ≤ recvCost d := by rw [recvCost_eq]; split <;> omega
+
+theorem recvCost_le_max (d : Bytes) (w : Nat) (h : d.length ≤ w) : recvCost d ≤ Nat.max w 1 := by
+  rw [recvCost_eq]; simp only [Nat.max_def]; split <;> split <;> omega
+
+theorem sumCost_append (a b : List Bytes) : sumCost (a ++ b) = sumCost a + sumCost b := by
+  induction a with
+  | nil => simp [sumCost]
+  | cons d q ih => simp only [List.cons_append, sumCost, ih]; omega
+
+theorem sumCost_drop_le (q : List Bytes) (k : Nat) : sumCost (q.drop k) ≤ sumCost q := by
+  induction q generalizing k with
+  | nil => simp [sumCost]
+  | cons d q ih =>
+    cases k with
+    | zero => simp
+    | succ k => simp only [List.drop_succ_cons, sumCost]; have := ih k; omega
+
+/-- every buffered datagram is charged at least one byte: the charge bounds the NUMBER of queue entries -/
+theorem length_le_sumCost (q : List Bytes) : q.length ≤ sumCost q := by
+  induction q with
+  | nil => simp [sumCost]
+  | cons d q ih => simp only [List.length_cons, sumCost]; have := recvCost_pos d; omega
+
+/-- and the payload bytes -/
+theorem sumLen_le_sumCost (q : List Bytes) : sumLen q ≤ sumCost q := by
+  induction q with
+  | nil => simp [sumLen, sumCost]
+  | cons d q ih => simp only [sumLen, sumCost]; have := len_le_recvCost d; omega
+
+theorem sumCost_eq_zero_iff (q : List Bytes) : sumCost q = 0 ↔ q = [] := by
+  cases q with
+  | nil => simp [sumCost]
+  | cons d q => simp only [sumCost, reduceCtorEq, iff_false]; have := recvCost_pos d; omega
+
 /-- the accounting invariant of `DatagramState` (plus: queued datagrams are varint-encodable, the
     "length sanity" that `Datagram::encode` relies on) -/
 structure Inv (s : State) : Prop where
   out : s.outgoingTotal = sumLen s.outgoing
-  inc : s.recvBuffered = sumLen s.incoming
+  inc : s.recvBuffered = sumCost s.incoming
   sane : ∀ d ∈ s.outgoing, d.length < 2^62
 
 theorem init_inv : Inv init := ⟨rfl, rfl, by simp [init]⟩
@@ -154,10 +200,10 @@ theorem send_char (s : State) (hi : Inv s) (d : Bytes) (drop en : Bool) (max : O
 
 /-! ### recv / received -/
 
-theorem recv_char (s : State) (hi : s.recvBuffered = sumLen s.incoming) :
+theorem recv_char (s : State) (hi : s.recvBuffered = sumCost s.incoming) :
     (s.incoming = [] ∧ recv s = (s, .recvNone))
     ∨ (∃ x rest, s.incoming = x :: rest
-        ∧ recv s = ({ s with incoming := rest, recvBuffered := sumLen rest }, .recvSome x)) := by
+        ∧ recv s = ({ s with incoming := rest, recvBuffered := sumCost rest }, .recvSome x)) := by
   unfold recv
   cases h : s.incoming with
   | nil => left; simp
@@ -165,31 +211,56 @@ theorem recv_char (s : State) (hi : s.recvBuffered = sumLen s.incoming) :
     right
     refine ⟨x, rest, rfl, ?_⟩
     rw [h] at hi
-    have hnl : ¬ (s.recvBuffered < x.length) := by simp only [sumLen] at hi; omega
-    have : s.recvBuffered - x.length = sumLen rest := by simp only [sumLen] at hi; omega
+    have hnl : ¬ (s.recvBuffered < recvCost x) := by simp only [sumCost] at hi; omega
+    have : s.recvBuffered - recvCost x = sumCost rest := by simp only [sumCost] at hi; omega
     simp only [hnl, if_false, this]
 
-theorem mustEvict_iff (len buffered w : Nat) : Gen.dgMustEvict len buffered w = true ↔ w < len + buffered := by
+theorem mustEvict_iff (cost buffered w : Nat) : Gen.dgMustEvict cost buffered w = true ↔ w < cost + buffered := by
   simp [Gen.dgMustEvict]
 
-/-- the eviction loop from a consistent state: drops a minimal prefix, never panics or spins -/
-theorem evict_char (len w : Nat) (hlen : len ≤ w) :
-    ∀ (fuel : Nat) (s : State), s.recvBuffered = sumLen s.incoming → s.incoming.length < fuel →
-      ∃ k, evict len w fuel s = ({ s with incoming := s.incoming.drop k, recvBuffered := sumLen (s.incoming.drop k) }, .done)
-        ∧ len + sumLen (s.incoming.drop k) ≤ w
-        ∧ ∀ j, j < k → w < len + sumLen (s.incoming.drop j) := by
+/-- the eviction loop cannot run out of fuel — from ANY state, consistent or not: every iteration pops a
+    datagram or leaves the loop -/
+theorem evict_never_hangs (cost w : Nat) : ∀ (fuel : Nat) (s : State), s.incoming.length < fuel →
+    (evict cost w fuel s).2 ≠ .hang := by
+  intro fuel
+  induction fuel with
+  | zero => intro s h; omega
+  | succ fuel ih =>
+    intro s hf
+    by_cases hm : Gen.dgMustEvict cost s.recvBuffered w = true
+    · cases hq : s.incoming with
+      | nil => simp [evict, hm, recv, hq]
+      | cons x rest =>
+        by_cases hlt : s.recvBuffered < recvCost x
+        · simp [evict, hm, recv, hq, hlt]
+        · have hlen : ({ s with incoming := rest, recvBuffered := s.recvBuffered - recvCost x } : State).incoming.length < fuel := by
+            rw [hq] at hf; simp only [List.length_cons] at hf; simp only; omega
+          have := ih _ hlen
+          simpa [evict, hm, recv, hq, hlt] using this
+    · simp [evict, hm]
+
+/-- the eviction loop from a consistent state: drops a minimal prefix (the oldest datagrams) until the charge
+    fits — or the queue is empty —, never panics or spins -/
+theorem evict_char (cost w : Nat) :
+    ∀ (fuel : Nat) (s : State), s.recvBuffered = sumCost s.incoming → s.incoming.length < fuel →
+      ∃ k, evict cost w fuel s = ({ s with incoming := s.incoming.drop k, recvBuffered := sumCost (s.incoming.drop k) }, .done)
+        ∧ (cost + sumCost (s.incoming.drop k) ≤ w ∨ s.incoming.drop k = [])
+        ∧ ∀ j, j < k → w < cost + sumCost (s.incoming.drop j) := by
   intro fuel
   induction fuel with
   | zero => intro s _ h; omega
   | succ fuel ih =>
     intro s hi hf
-    by_cases hm : Gen.dgMustEvict len s.recvBuffered w = true
+    have hself : ({ s with incoming := s.incoming.drop 0, recvBuffered := sumCost (s.incoming.drop 0) } : State) = s := by
+      cases s; simp only [List.drop_zero]; simp only at hi; simp only [← hi]
+    by_cases hm : Gen.dgMustEvict cost s.recvBuffered w = true
     · have hgt := (mustEvict_iff _ _ _).1 hm
-      rcases recv_char s hi with ⟨hnil, _⟩ | ⟨x, rest, hx, hr⟩
-      · rw [hnil] at hi; simp only [sumLen] at hi; omega
-      · have hi' : ({ s with incoming := rest, recvBuffered := sumLen rest } : State).recvBuffered
-            = sumLen ({ s with incoming := rest, recvBuffered := sumLen rest } : State).incoming := rfl
-        have hf' : ({ s with incoming := rest, recvBuffered := sumLen rest } : State).incoming.length < fuel := by
+      rcases recv_char s hi with ⟨hnil, hr⟩ | ⟨x, rest, hx, hr⟩
+      · refine ⟨0, ?_, Or.inr (by simpa using hnil), fun j hj => by omega⟩
+        simp only [evict, hm, if_true, hr, hself]
+      · have hi' : ({ s with incoming := rest, recvBuffered := sumCost rest } : State).recvBuffered
+            = sumCost ({ s with incoming := rest, recvBuffered := sumCost rest } : State).incoming := rfl
+        have hf' : ({ s with incoming := rest, recvBuffered := sumCost rest } : State).incoming.length < fuel := by
           rw [hx] at hf; simp only [List.length_cons] at hf; simp only; omega
         obtain ⟨k, h1, h2, h3⟩ := ih _ hi' hf'
         refine ⟨k + 1, ?_, ?_, ?_⟩
@@ -199,24 +270,28 @@ theorem evict_char (len w : Nat) (hlen : len ≤ w) :
           cases j with
           | zero => simp only [List.drop_zero]; rw [← hi]; exact hgt
           | succ j => rw [hx]; simp only [List.drop_succ_cons]; exact h3 j (by omega)
-    · have hm' : Gen.dgMustEvict len s.recvBuffered w = false := by simpa using hm
+    · have hm' : Gen.dgMustEvict cost s.recvBuffered w = false := by simpa using hm
       refine ⟨0, ?_, ?_, ?_⟩
-      · simp only [evict, hm', Bool.false_eq_true, if_false, List.drop_zero, ← hi]
-      · have : ¬ (w < len + s.recvBuffered) := fun h => by
-          have := (mustEvict_iff len s.recvBuffered w).2 h; rw [hm'] at this; exact Bool.noConfusion this
-        simp only [List.drop_zero, ← hi]; omega
+      · simp only [evict, hm', Bool.false_eq_true, if_false, hself]
+      · have : ¬ (w < cost + s.recvBuffered) := fun h => by
+          have := (mustEvict_iff cost s.recvBuffered w).2 h; rw [hm'] at this; exact Bool.noConfusion this
+        left; simp only [List.drop_zero, ← hi]; omega
       · intro j hj; omega
 
+theorem recvCost_le_of_pos (d : Bytes) (w : Nat) (h : d.length ≤ w) (hw : 1 ≤ w) : recvCost d ≤ w := by
+  rw [recvCost_eq]; split <;> omega
+
 /-- complete characterisation of `DatagramState::received` from a consistent state -/
-theorem received_char (s : State) (hi : s.recvBuffered = sumLen s.incoming) (d : Bytes) (window : Option Nat) :
+theorem received_char (s : State) (hi : s.recvBuffered = sumCost s.incoming) (d : Bytes) (window : Option Nat) :
     (window = none ∧ received s d window = (s, .rcvErr .unexpected))
     ∨ (∃ w, window = some w ∧ w < d.length ∧ received s d window = (s, .rcvErr .oversized))
-    ∨ (∃ w k, window = some w ∧ d.length ≤ w
+    ∨ (∃ w, window = some w ∧ d.length ≤ w ∧ w < recvCost d ∧ received s d window = (s, .rcvOk false))
+    ∨ (∃ w k, window = some w ∧ recvCost d ≤ w
         ∧ received s d window =
-            ({ s with incoming := s.incoming.drop k ++ [d], recvBuffered := sumLen (s.incoming.drop k) + d.length },
+            ({ s with incoming := s.incoming.drop k ++ [d], recvBuffered := sumCost (s.incoming.drop k) + recvCost d },
              .rcvOk (decide (s.recvBuffered = 0)))
-        ∧ sumLen (s.incoming.drop k) + d.length ≤ w
-        ∧ ∀ j, j < k → w < sumLen (s.incoming.drop j) + d.length) := by
+        ∧ sumCost (s.incoming.drop k) + recvCost d ≤ w
+        ∧ ∀ j, j < k → w < sumCost (s.incoming.drop j) + recvCost d) := by
   cases window with
   | none => left; simp [received]
   | some w =>
@@ -228,9 +303,29 @@ theorem received_char (s : State) (hi : s.recvBuffered = sumLen s.incoming) (d :
     · right
       have ho' : Gen.dgOversized d.length w = false := by simpa using ho
       have hle : d.length ≤ w := by simpa [Gen.dgOversized] using ho'
-      obtain ⟨k, h1, h2, h3⟩ := evict_char d.length w hle (s.incoming.length + 1) s hi (by omega)
-      refine ⟨w, k, rfl, hle, ?_, by omega, fun j hj => by have := h3 j hj; omega⟩
-      simp only [received, ho', Bool.false_eq_true, if_false, h1, Gen.dgWasEmpty]
+      by_cases hc : Gen.dgCostTooBig (recvCost d) w = true
+      · left
+        have : w < recvCost d := by simpa [Gen.dgCostTooBig] using hc
+        exact ⟨w, rfl, hle, this, by simp [received, ho', hc]⟩
+      · right
+        have hc' : Gen.dgCostTooBig (recvCost d) w = false := by simpa using hc
+        have hcw : recvCost d ≤ w := by simpa [Gen.dgCostTooBig] using hc'
+        obtain ⟨k, h1, h2, h3⟩ := evict_char (recvCost d) w (s.incoming.length + 1) s hi (by omega)
+        refine ⟨w, k, rfl, hcw, ?_, ?_, fun j hj => by have := h3 j hj; omega⟩
+        · simp only [received, ho', hc', Bool.false_eq_true, if_false, h1, Gen.dgWasEmpty]
+        · rcases h2 with h2 | h2
+          · omega
+          · rw [h2]; simp only [sumCost, Nat.zero_add]; exact hcw
+
+/-- the only datagram `received` drops unbuffered is an empty one offered to a zero-sized buffer -/
+theorem cost_exceeds_window_iff (d : Bytes) (w : Nat) (h : d.length ≤ w) : w < recvCost d ↔ (w = 0 ∧ d = []) := by
+  rw [recvCost_eq]
+  constructor
+  · intro hlt
+    split at hlt
+    · rename_i h0; exact ⟨by omega, List.eq_nil_of_length_eq_zero h0⟩
+    · omega
+  · rintro ⟨rfl, rfl⟩; simp
 
 /-! ### drop_oversized -/
 
@@ -479,12 +574,13 @@ theorem step_inv (s : State) (hi : Inv s) (op : Op) (hw : op.WF) :
           omega
   | received d w =>
     simp only [step]
-    rcases received_char s hi.inc d w with ⟨_, h⟩ | ⟨w', _, _, h⟩ | ⟨w', k, _, _, h, _, _⟩
+    rcases received_char s hi.inc d w with ⟨_, h⟩ | ⟨w', _, _, h⟩ | ⟨w', _, _, _, h⟩ | ⟨w', k, _, _, h, _, _⟩
+    · rw [h]; exact ⟨hi, by simp, by simp⟩
     · rw [h]; exact ⟨hi, by simp, by simp⟩
     · rw [h]; exact ⟨hi, by simp, by simp⟩
     · rw [h]
       refine ⟨⟨hi.out, ?_, hi.sane⟩, by simp, by simp⟩
-      simp only [sumLen_append, sumLen]; omega
+      simp only [sumCost_append, sumCost]; omega
   | recv =>
     simp only [step]
     rcases recv_char s hi.inc with ⟨_, h⟩ | ⟨x, rest, _, h⟩
@@ -625,9 +721,12 @@ theorem fifo_general (ops : List Op) : ∀ (s : State), Inv s → (∀ op ∈ op
         exact List.Sublist.cons₂ x ih'
     | received d w =>
       simp only [step] at ih' ⊢
-      rcases received_char s hi.inc d w with ⟨_, h⟩ | ⟨w', _, _, h⟩ | ⟨w', k, _, _, h, _, _⟩
+      rcases received_char s hi.inc d w with ⟨_, h⟩ | ⟨w', _, _, h⟩ | ⟨w', _, _, _, h⟩ | ⟨w', k, _, _, h, _, _⟩
       · rw [h] at ih' ⊢; simpa [delivered, accepted] using ih'
       · rw [h] at ih' ⊢; simpa [delivered, accepted] using ih'
+      · rw [h] at ih' ⊢
+        simp only [delivered, accepted] at ih' ⊢
+        exact List.Sublist.trans ih' (List.Sublist.append (List.Sublist.refl _) (List.sublist_cons_self _ _))
       · rw [h] at ih' ⊢
         simp only [delivered, accepted] at ih' ⊢
         refine List.Sublist.trans ih' ?_
@@ -705,7 +804,7 @@ theorem step_total (s : State) (hi : Inv s) (op : Op) (hw : op.WF) :
     · right; exact ⟨d, drop, en, max, b, rfl, by rw [h], by rw [h]; exact hfit⟩
   | received d w =>
     left; simp only [step]
-    rcases received_char s hi.inc d w with ⟨_, h⟩ | ⟨w', _, _, h⟩ | ⟨w', k, _, _, h, _, _⟩ <;> rw [h] <;> exact Nat.le_refl _
+    rcases received_char s hi.inc d w with ⟨_, h⟩ | ⟨w', _, _, h⟩ | ⟨w', _, _, _, h⟩ | ⟨w', k, _, _, h, _, _⟩ <;> rw [h] <;> exact Nat.le_refl _
   | recv =>
     left; simp only [step]
     rcases recv_char s hi.inc with ⟨_, h⟩ | ⟨x, rest, _, h⟩ <;> rw [h] <;> exact Nat.le_refl _
@@ -741,6 +840,71 @@ theorem total_le_fixed (b : Nat) (ops : List Op) : ∀ (s : State), Inv s → s.
     rcases step_total s hi op hop.1 with h | ⟨d, drop, en, max, b', hop', _, h⟩
     · omega
     · have := hop.2 d drop en max b' hop'; omega
+
+/-! ### the receive buffer bounds bytes AND entries -/
+
+/-- what is charged for the buffered datagrams never grows except by an accepted `received`, which leaves it
+    within that call's window -/
+theorem step_buffered (s : State) (hi : Inv s) (op : Op) (hw : op.WF) :
+    (step s op).1.recvBuffered ≤ s.recvBuffered
+    ∨ ∃ d w e, op = .received d (some w) ∧ (step s op).2 = .rcvOk e ∧ (step s op).1.recvBuffered ≤ w := by
+  cases op with
+  | send d drop en max b =>
+    obtain ⟨hb, hm⟩ := hw
+    left; simp only [step]
+    rcases send_char s hi d drop en max b hb hm with
+      ⟨_, h⟩ | ⟨_, _, h⟩ | ⟨m, _, _, _, h⟩ | ⟨m, _, _, _, _, _, h⟩ | ⟨m, _, _, _, _, _, h⟩ | ⟨m, k, _, _, _, _, _, _, h⟩ <;>
+      rw [h] <;> exact Nat.le_refl _
+  | received d w =>
+    simp only [step]
+    rcases received_char s hi.inc d w with ⟨_, h⟩ | ⟨w', _, _, h⟩ | ⟨w', _, _, _, h⟩ | ⟨w', k, hw', _, h, hb, _⟩
+    · left; rw [h]; exact Nat.le_refl _
+    · left; rw [h]; exact Nat.le_refl _
+    · left; rw [h]; exact Nat.le_refl _
+    · right; subst hw'; exact ⟨d, w', _, rfl, by rw [h], by rw [h]; exact hb⟩
+  | recv =>
+    left; simp only [step]
+    rcases recv_char s hi.inc with ⟨_, h⟩ | ⟨x, rest, hx, h⟩
+    · rw [h]; exact Nat.le_refl _
+    · rw [h]; simp only [hi.inc, hx, sumCost]; omega
+  | write buf m =>
+    left; simp only [step]
+    rcases write_char s hi buf m with ⟨h, _⟩ | ⟨d, rest, fs, fr, hq, _, _, _, _, h⟩ <;> rw [h] <;> exact Nat.le_refl _
+  | writeLoop buf m =>
+    left; simp only [step]
+    obtain ⟨k, _, h, _⟩ := writeLoop_char s hi buf m
+    rw [h]; exact Nat.le_refl _
+  | dropOversized m =>
+    left; simp only [step]
+    rw [dropOversized_char s hi.out m]; exact Nat.le_refl _
+  | blackHoleGlue max =>
+    left; simp only [step]
+    rcases blackHoleGlue_char s hi.out max with ⟨_, h⟩ | ⟨m, _, h⟩ <;> rw [h] <;> exact Nat.le_refl _
+
+/-- with the connection's single configured `datagram_receive_buffer_size` (`received` is called with it, or with
+    `None` = disabled) the charge is bounded in every reachable state -/
+theorem buffered_le_fixed (w : Nat) (ops : List Op) : ∀ (s : State), Inv s → s.recvBuffered ≤ w →
+    (∀ op ∈ ops, op.WF ∧ ∀ d w', op = .received d (some w') → w' = w) →
+    (exec s ops).recvBuffered ≤ w := by
+  induction ops with
+  | nil => intro s _ h _; exact h
+  | cons op ops ih =>
+    intro s hi hle hw
+    have hop := hw op (by simp)
+    have hs := step_inv s hi op hop.1
+    refine ih _ hs.1 ?_ (fun o ho => hw o (by simp [ho]))
+    rcases step_buffered s hi op hop.1 with h | ⟨d, w', e, hop', _, h⟩
+    · omega
+    · have := hop.2 d w' hop'; subst this; exact h
+
+/-- hence the NUMBER of buffered datagrams is bounded by the configured window (every entry is charged ≥ 1) -/
+theorem count_le_fixed (w : Nat) (ops : List Op) (s : State) (hi : Inv s) (h0 : s.recvBuffered ≤ w)
+    (hw : ∀ op ∈ ops, op.WF ∧ ∀ d w', op = .received d (some w') → w' = w) :
+    (exec s ops).incoming.length ≤ w ∧ sumLen (exec s ops).incoming ≤ w := by
+  have hb := buffered_le_fixed w ops s hi h0 hw
+  have hinv := exec_inv ops s hi (fun o ho => (hw o ho).1)
+  rw [hinv.inc] at hb
+  exact ⟨Nat.le_trans (length_le_sumCost _) hb, Nat.le_trans (sumLen_le_sumCost _) hb⟩
 
 /-! ### max_size -/
 
